@@ -10,6 +10,7 @@ corresponding theorem. Generated protobuf decoders, crypto primitives, snappy, S
 runtime are outside the model; they are exercised by the harness only.
 -/
 import AnySyncModel.Bytes.Lemmas
+import AnySyncModel.Bytes.KeyProtoLemmas
 import AnySyncModel.Handshake.Lemmas
 import AnySyncModel.Ldiff.Shape
 
@@ -85,6 +86,35 @@ theorem unmarshalEd25519_total (data : Bytes) :
       split at h
       · rename_i h64; simp at h; subst h; exact h64
       · cases h
+
+/-! ### a generated protobuf decoder, byte level: `cryptoproto.Key.UnmarshalVT` + `protohelpers.Skip` -/
+
+/-- `Key.UnmarshalVT` on any bytes: no index / slice panic, and the loop budgets of the model are
+never exhausted (every iteration of every loop consumes input) -/
+theorem keyProto_unmarshal_total (d : Bytes) :
+    KeyProto.unmarshalKey d ≠ .panic ∧ KeyProto.unmarshalKey d ≠ .fuel :=
+  KeyProto.fieldsLoop_ok d (d.length + 1) ⟨0, []⟩ 0 (by omega)
+
+/-- `crypto.UnmarshalEd25519PublicKeyProto` (decode, key-type switch, length check) is total; what
+reaches the point decoder is exactly 32 bytes of a message whose type is Ed25519Public -/
+theorem unmarshalEd25519PublicKeyProto_total (d : Bytes) :
+    KeyProto.unmarshalEd25519PublicKeyProto d ≠ .panic ∧ KeyProto.unmarshalEd25519PublicKeyProto d ≠ .fuel ∧
+    ∀ b, KeyProto.unmarshalEd25519PublicKeyProto d = .ok b → b.length = 32 := by
+  obtain ⟨hp, hf⟩ := keyProto_unmarshal_total d
+  unfold KeyProto.unmarshalEd25519PublicKeyProto
+  cases hk : KeyProto.unmarshalKey d with
+  | err => exact ⟨by simp, by simp, by intro b h; cases h⟩
+  | panic => exact absurd hk hp
+  | fuel => exact absurd hk hf
+  | ok k =>
+    simp only
+    split
+    · exact ⟨by simp, by simp, by intro b h; cases h⟩
+    · have he := unmarshalEd25519_total k.data
+      cases hpb : edPub k.data with
+      | ok b => simp only; exact ⟨by simp, by simp, by intro b' h; injection h with h; subst h; exact he.2.1 b hpb⟩
+      | err => exact ⟨by simp, by simp, by intro b h; cases h⟩
+      | panic => exact absurd hpb he.1
 
 /-! ### pub/sub topics and patterns -/
 
@@ -255,6 +285,10 @@ example : validatePattern [97, 47, 42, 47, 62] = .ok () ∧ validatePattern [97,
 /-- "ba.a1" -/
 example : spaceIdSplit [98, 97, 46, 97, 49] = .ok ([98, 97], [97, 49]) := by decide
 example : spaceIdSplit [98, 97] = .err := by decide
+/-- `08 00 12 02 aa bb`: Type = 0, Data = aa bb; trailing unknown group field; truncated length -/
+example : KeyProto.unmarshalKey [0x08, 0x00, 0x12, 0x02, 0xaa, 0xbb] = .ok ⟨0, [0xaa, 0xbb]⟩ := by decide
+example : KeyProto.unmarshalKey [0x08, 0x01, 0x1b, 0x08, 0x05, 0x1c] = .ok ⟨1, []⟩ := by decide
+example : KeyProto.unmarshalKey [0x12, 0x05, 0xaa] = .err := by decide
 example : genTupleRanges 0 99 4 = .ok [⟨0, 24⟩, ⟨25, 49⟩, ⟨50, 74⟩, ⟨75, 99⟩] := by decide
 
 end AnySync.Props.C11
